@@ -5,6 +5,7 @@ import metricgen as mg
 import regen as regen_mod
 from common import Driver, f2b, b2f
 
+REGEN = ("constants", "registry", "distsrc")
 MODELLED = {"euclidean", "seuclidean", "manhattan", "chebyshev", "minkowski", "wminkowski", "mahalanobis", "canberra",
             "braycurtis", "cosine", "correlation", "hellinger", "haversine", "hyperboloid", "symmetric_kl",
             "spherical_gaussian_energy", "diagonal_gaussian_energy"}
@@ -90,6 +91,13 @@ def run(ctx):
                 "central finite differences (two step sizes) of the implementation's own returned distance (direction cosine >= 1-1e-4, "
                 "magnitude within 2e-3), and vs the Lean model; non-trivial = every accepted point; rejected points are counted")
     ctx.assumptions += ["gradients returned as float32 arrays and float32 internals: 1e-4 relative", "regularising constants (1e-6/1e-8) are below the tolerance at distance >= 0.1"]
+    # the translated gradient kernels (what the `*_src` theorems are about) against the Python source itself
+    import srcval
+    import translate
+    srcval.validate(ctx, translate.GRAD_FUNCS, 200 if ctx.thorough else 25, rng)
+    ctx.assumptions.append("the AST -> Lean translator (harness/translate.py) is validated on every run by executing its output "
+                           "(srcdrv) against the Python source (.py_func) on generated inputs; the `*_src` theorems tie its output "
+                           "to the hand-written model for all inputs")
     drv = Driver()
     pend = []
     per = 300 if ctx.thorough else 40
@@ -123,6 +131,9 @@ def run(ctx):
                          "haversine") and not float(d) >= 1e-2 and not flat:
                 ctx.skip(f"rejected: distance below 1e-2, the kink of a root-type distance ({cname})")
                 continue
+            if np.asarray(g).shape != (len(x),):
+                ctx.violation("gradient-shape", f"{name}: gradient of shape {np.asarray(g).shape} for {len(x)}-vectors", case,
+                              key=f"C14:{cname}_grad-shape")
             g = np.asarray(g, dtype=np.float64)[:len(x)]
             if not np.all(np.isfinite(g)) and np.isfinite(float(d)):
                 done += 1
